@@ -664,6 +664,29 @@ class AMR(AM):
         return False
 
 
+class AMC(AM):
+    """like AM, but the coroutine function that implements __aexit__ goes by another name (`__aexit__ = aclose`)"""
+
+    async def aclose(s, *exc):
+        return await AM.__aexit__(s, *exc)
+    __aexit__ = aclose
+
+
+def _logged(fn):
+    def call(*a, **kw):   # a decorator that does not use functools.wraps: the method's __name__ is "call"
+        return fn(*a, **kw)
+    return call
+
+
+class AMW(AM):
+    """like AM, but __aexit__ is wrapped by a decorator that does not preserve its name"""
+    __aexit__ = _logged(AM.__aexit__)
+
+
+def _am_aliased(rt, i):
+    return (AMC, AMW)[i % 2](rt, i)
+
+
 def _m_mixed(rt, i):
     return (M if i % 2 else MC)(rt, i)
 
@@ -678,7 +701,9 @@ NS_MIXED = {"AM": _am_mixed, "M": _m_mixed, "E": E, "E2": E2, "trap": trap}
 NS_REENTRANT = {"AM": _am_reentrant, "M": _m_reentrant, "E": E, "E2": E2, "trap": trap}
 # managers that answer an exception with a new exception raised from __exit__/__aexit__ (instead of swallowing it)
 NS_RAISING = {"AM": AMR, "M": MR, "E": E, "E2": E2, "trap": trap}
-NAMESPACES = {"mixed": NS_MIXED, "reentrant": NS_REENTRANT, "raising": NS_RAISING}
+# every manager's exit function thinks its name is something other than __exit__/__aexit__
+NS_ALIASED = {"AM": _am_aliased, "M": MC, "E": E, "E2": E2, "trap": trap}
+NAMESPACES = {"mixed": NS_MIXED, "reentrant": NS_REENTRANT, "raising": NS_RAISING, "aliased": NS_ALIASED}
 
 
 def compile_prog(src, filename="<prog>", ns=None):
